@@ -71,6 +71,14 @@ fn main() {
         "pk" => {
             stats_json = pk::generate(seed, n, &mut lines);
         }
+        "pk-parse" => {
+            let el: usize = arg_val(&args, "--enum-len").and_then(|s| s.parse().ok()).unwrap_or(1);
+            stats_json = pk::generate_parse(seed, n, el, &mut lines);
+        }
+        "pk-parse-replay" => {
+            let nums: Vec<u64> = args[2..].iter().filter_map(|s| s.parse().ok()).collect();
+            lines.push(pk::replay_parse(&nums));
+        }
         "pk-replay" => {
             let nums: Vec<u64> = args[2..].iter().filter_map(|s| s.parse().ok()).collect();
             lines.push(pk::replay(&nums));
